@@ -45,6 +45,8 @@ def gen_plan_c08b(seed, tier, index):
             if many:
                 b = r.choice([r.randint(3, 12), r.randint(14, 30), wide, wide, r.randint(30, 70)])
             lines.append({'blocks': b, 'frames': b, 'seed': r.randrange(1 << 30), 'amb': r.choice([0.4, 0.7, 0.8])})
+            if mode == 'ocr' and r.random() < 0.4:
+                lines[-1]['hsplit'] = r.choice([[10.0, 6.0], [8.0, 8.0], [14.0, 2.0]])
         pages.append({'id': pid, 'ext': '.png', 'lines': lines, 'regions': r.choice([1, 1, 2])})
         if mode == 'ocr' and r.random() < 0.3:
             pages[-1]['xml_style'] = 'transkribus'      # importer guesses heights (global numpy RNG)
@@ -57,6 +59,8 @@ def gen_plan_c08b(seed, tier, index):
     plan = {'world': 'pf8', 'mode': mode, 'with_images': False, 'cfg': cfg, 'pages': pages,
             'outputs': ['xml'] + (['alto'] if r.random() < 0.4 else []), 'procs': 1,
             'clock': {'inc': [0.001, 0.02], 'jumps': {}}}
+    if mode == 'ocr':
+        plan['outputs'] += [k for k in ('lines', 'logits') if r.random() < 0.4]
     if mode == 'layout':
         plan['regions_from_xml'] = True
         plan['outputs'] = ['xml'] + (['lines'] if r.random() < 0.5 else [])
@@ -75,6 +79,11 @@ def gen_plan_c08b(seed, tier, index):
             s['crashes'] = [r.randint(1, max(1, w - 1)) for _ in range(r.choice([1, 1, 2]))]
             s['resume'] = run_spec(r, p2)
         scen.append(s)
+    if mode == 'ocr' and r.random() < 0.25:
+        # transient out-of-memory inside the OCR network on an early page; a later page has a very wide line
+        k = r.randrange(len(pages))
+        pages[-1]['lines'].append({'blocks': r.randint(250, 330), 'frames': 8, 'seed': r.randrange(1 << 30), 'amb': 0.4})
+        scen.append({'kind': 'oom', 'run': dict(run_spec(r, plan), procs=1, ocr_oom_at=r.randint(0, 2))})
     plan['scenarios'] = scen
     return plan
 
@@ -136,7 +145,16 @@ def execute_c08b(plan):
                 res.probe('multi_page_run_with_lm_carry')
                 res.nontrivial = kernel.sha([plan['cfg'], [p['lines'] for p in plan['pages']], [x['kind'] for x in plan['scenarios']]])
             res.states.append(kernel.sha([kernel.sha(d), s['kind'], order]))
+            failed_pages = set()
+            if s['kind'] == 'oom':
+                # the page whose OCR call hit the injected failure legitimately has no outputs: exempt it,
+                # every other page must be unaffected
+                failed_pages = {pid for pid in ids if 'xml/%s.xml' % pid not in snap}
+                if failed_pages:
+                    res.probe('page_failed_by_injected_oom_later_pages_compared')
             for pid in ids:
+                if pid in failed_pages:
+                    continue
                 for f, dg in ref[pid].items():
                     if snap.get(f) != dg:
                         got = _page_result_from_xml(os.path.join(out, 'xml', pid + '.xml')) if os.path.exists(os.path.join(out, 'xml', pid + '.xml')) else None
